@@ -153,6 +153,15 @@ func (c *diskCache) findMissingCasBlobsInternal(ctx context.Context, blobs []*pb
 			}
 			return errRequestCancelled
 		case <-waitCh: // Everything in the waitgroup has finished.
+			// ctx may have been cancelled as well by now, in which case
+			// select picked this case at random: the proxyChecks that
+			// were short-circuited have not found their blobs.
+			if cancelledDueToFailFast.Load() {
+				return errMissingBlob
+			}
+			if ctx.Err() != nil {
+				return errRequestCancelled
+			}
 		}
 	}
 
